@@ -67,7 +67,7 @@ def lib_sources():
 class Variant:
     """A build variant: '<base>[+mod]*'.
     base: prod | asan | msan | tsan | clang | tsanclang | asanclang | gcc
-    mods: W32 UNAL0 NEUTRAL NOSIMD NOAVX2 NOBUILTIN NATIVE O0 O1 O2 O3 Os Og"""
+    mods: W32 UNAL0 NEUTRAL NOSIMD NOAVX2 NOBUILTIN NATIVE NDEBUG UCHAR O0 O1 O2 O3 Os Og"""
 
     def __init__(self, name):
         self.name = name
@@ -85,6 +85,8 @@ class Variant:
             elif m == "NOSIMD": self.cfg.update({"VEC128_MATH": 0, "VEC256_MATH": 0})
             elif m == "NOAVX2": self.cfg["VEC256_MATH"] = 0
             elif m == "NATIVE": self.extra.append("-march=native")     # user-style flags applied to every file: every __SSE3__/__SSSE3__/__AVX2__-conditional arm of the sources is compiled in
+            elif m == "NDEBUG": self.extra.append("-DNDEBUG")           # release-style build: assert() compiled out
+            elif m == "UCHAR": self.extra.append("-funsigned-char")     # plain char unsigned, as on ARM/PowerPC ABIs
             elif m == "NOBUILTIN": self.nobuiltin = True     # memcpy/memset stay calls, so sanitizer interceptors see them
             elif re.fullmatch(r"O[0123sg]", m): opt = "-" + m
             else: raise HarnessError("unknown variant modifier " + m)
